@@ -1,6 +1,7 @@
 package harness
 
 import (
+	"bytes"
 	"fmt"
 	"strings"
 	"syscall"
@@ -126,6 +127,47 @@ func sweepProgram(c *sim.RunCtx, src []byte, wellBehaved bool, gaps []int, nontr
 		if !runaway {
 			for n := T - 3; n <= T+2; n++ {
 				ns = append(ns, n)
+			}
+		}
+	}
+	// the budget may also be set (or changed) between two calls on the same
+	// interpreter: it then applies to the cumulative count from there on
+	if wellBehaved && !runaway && len(gaps) > 0 {
+		cut := sim.Pick(t, gaps)
+		ps := splitAt(src, []int{cut})
+		if len(ps) == 2 {
+			probe := newInterp(0)
+			if e1 := probe.Execute(bytes.NewReader(ps[0])); e1 == nil {
+				n1 := probe.NumOps
+				full := runPS(newInterp(0), src, gen.RefSchedule(), []int{cut}, sim.Fault{}, nil)
+				Tc := full.In.NumOps
+				fullD, fullE := dump.Interp(full.In), dump.Err(full.Err)
+				for _, N := range []int{1, n1 - 1, n1, n1 + 1, n1 + 3, Tc - 1, Tc, Tc + 2} {
+					if N < 1 {
+						continue
+					}
+					in := newInterp(0)
+					if in.Execute(bytes.NewReader(ps[0])) != nil {
+						break
+					}
+					in.MaxOps = N
+					err := in.Execute(bytes.NewReader(ps[1]))
+					st.Inc("probe_budget_set_between_calls")
+					human := map[string]any{"program": printable(src), "first_call": printable(ps[0]), "ops_after_first_call": n1, "budget_set_before_second_call": N, "ops_of_both_calls": Tc, "NumOps": in.NumOps, "error": dump.Err(err)}
+					if N >= Tc {
+						if d, e := dump.Interp(in), dump.Err(err); d != fullD || e != fullE {
+							return &sim.Outcome{Class: "budget-changes-result", Key: "budget:set-between-calls", Detail: fmt.Sprintf("budget %d set after the first call (%d operations so far, %d in total) changes the outcome: %s", N, n1, Tc, firstDiff(e+"\n"+d, fullE+"\n"+fullD)), Human: human}
+						}
+						continue
+					}
+					if Tc == n1 {
+						continue // the second call executes nothing
+					}
+					want := max(N, n1) + 1
+					if err != postscript.ErrExecutionLimitExceeded || in.NumOps != want {
+						return &sim.Outcome{Class: "budget-not-enforced", Key: "budget:set-between-calls", Detail: fmt.Sprintf("budget %d set after the first call (%d operations so far, %d needed in total): the second call ended with %s and NumOps=%d, want the budget error at %d", N, n1, Tc, dump.Err(err), in.NumOps, want), Human: human}
+					}
+				}
 			}
 		}
 	}
@@ -297,6 +339,11 @@ var limitShapes = []limitShape{
 	{"handler-rangecheck-pushing-for", "errordict /rangecheck { 0 1 1000000 { } for } put -1 array", []string{"stackoverflow"}, false, ""},
 	{"handler-begin-loop", "errordict /typecheck { { currentdict begin } loop } put 1 begin", []string{"dictstackoverflow"}, false, ""},
 	{"handler-recursion", "/f { f 1 } def errordict /typecheck { f } put 1 begin", []string{"execstackoverflow"}, false, ""},
+	{"loop-push-above-open-bracket", "[ { 0 } loop", []string{"stackoverflow"}, false, ""},
+	{"loop-push-above-mark", "mark { 1 } loop", []string{"stackoverflow"}, false, ""},
+	{"loop-push-above-dict-mark", "<< { /a 1 } loop", []string{"stackoverflow"}, false, ""},
+	{"for-push-above-open-bracket", "[ 0 1 1000000 { } for", []string{"stackoverflow"}, false, ""},
+	{"recursion-push-above-mark", "mark /f { 1 f } def f", []string{"stackoverflow", "execstackoverflow"}, false, ""},
 	{"type1.Read-runaway-loop", "%!\n{ } loop", []string{"budget"}, false, "type1.Read"},
 	{"type1.Read-runaway-recursion", "%!\n/f { f 1 } def f", []string{"execstackoverflow"}, false, "type1.Read"},
 	{"type1.Read-runaway-push", "%!\n{ 1 } loop", []string{"stackoverflow"}, false, "type1.Read"},
